@@ -366,7 +366,28 @@ def date_system_rule(ctx, prog, rid):
             k = prog.const(e, f.module)
             if isinstance(k, int) and not isinstance(k, bool):
                 return ("int", k)
+            if k is None and e.id == "None":
+                return ("none",)
+            # a module constant that is a record (NamedTuple / dataclass instance built from constants): its fields by name
+            node = f.module.assigns.get(e.id)
+            if isinstance(node, ast.Call) and isinstance(node.func, ast.Name) and node.func.id in f.module.classes:
+                rc = f.module.classes[node.func.id]
+                fields = [n_.target.id for n_ in rc.node.body if isinstance(n_, ast.AnnAssign) and isinstance(n_.target, ast.Name)]
+                if fields and len(node.args) + len(node.keywords) == len(fields):
+                    vals = dict(zip(fields, node.args))
+                    vals.update({k_.arg: k_.value for k_ in node.keywords})
+                    return ("record", {fn_: ev(v_, {}) for fn_, v_ in vals.items()})
             raise Und("name %s" % e.id)
+        if isinstance(e, ast.Constant) and e.value is None:
+            return ("none",)
+        if isinstance(e, ast.Attribute) and isinstance(e.value, ast.Name):
+            base = None
+            try:
+                base = ev(e.value, env)
+            except Und:
+                base = None
+            if isinstance(base, tuple) and base[0] == "record" and e.attr in base[1]:
+                return base[1][e.attr]
         if isinstance(e, ast.Constant) and isinstance(e.value, int):
             return ("int", e.value)
         if isinstance(e, ast.Call) and len(e.args) == 3 and all(isinstance(a, ast.Attribute) and a.attr in ("year", "month", "day") for a in e.args):
@@ -401,6 +422,8 @@ def date_system_rule(ctx, prog, rid):
             lo = hi = None  # the path applies to day counts in [lo, hi)
             feasible = True
             for evn in pth.events:
+                if not feasible:
+                    break   # the path contradicts a value known on it: nothing after the contradiction is evaluated
                 if evn[0] == "stmt":
                     st = evn[1]
                     if isinstance(st, ast.Assign) and isinstance(st.targets[0], ast.Name):
@@ -428,6 +451,9 @@ def date_system_rule(ctx, prog, rid):
                         if len(at_) == 1 and at_[0][0] == "truthy" and at_[0][1] == flag and flagv is not None:
                             if at_[0][2] != flagv:
                                 contradicted = True  # this conjunct is false already: nothing more is learnt
+                        elif len(at_) == 1 and at_[0][0] == "none" and isinstance(env.get(at_[0][1]), tuple):
+                            if (env[at_[0][1]] == ("none",)) != at_[0][2]:
+                                contradicted = True  # decided by a value known on this path
                         else:
                             unknown_.append(cj)
                     if not contradicted and len(unknown_) == 1:
@@ -435,6 +461,12 @@ def date_system_rule(ctx, prog, rid):
                     elif not contradicted:
                         raise Und("condition `%s` is false for an undetermined reason" % ast.unparse(evn[1]))
                 for atom in atoms_:
+                    if atom[0] == "none" and isinstance(env.get(atom[1]), tuple):
+                        # a local whose value is known on this path (a field of the date-system record): decided here
+                        if (env[atom[1]] == ("none",)) != atom[2]:
+                            feasible = False
+                            break
+                        continue
                     if atom[0] == "truthy" and atom[1] == flag:
                         if flagv is not None and flagv != atom[2]:
                             feasible = False
